@@ -41,11 +41,13 @@ def concretise(toks, salt, tight):
         k += 1
         sep = " "
         if tight and prev is not None:
-            dotted_num = (prev.startswith(".") or prev.endswith(".")) and (s.startswith(".") or s[0].isdigit()) \
-                or (s.startswith(".") and (prev[-1].isdigit() or prev.endswith(".")))
+            # a dotted operator may be followed directly by a numeric literal (.inv.1.0e-3); a blank is kept where two
+            # dots would meet (1. .eq.) and after an integer literal (3 .eq. x), where the lexical structure is at stake
+            dotted_num = (prev.endswith(".") and s.startswith(".")) \
+                or (s.startswith(".") and prev[-1].isdigit() and prev.isdigit())
             letters = (prev[-1].isalnum() or prev[-1] == "_") and (s[0].isalnum() or s[0] == "_")
             opop = prev in ("*", "/", "**", "//") and s in ("*", "/", "**", "//", "/=")
-            numdot = (prev in NUMERIC or prev[-1].isdigit()) and s.startswith(".")
+            numdot = prev.isdigit() and s.startswith(".")
             sep = " " if (dotted_num or letters or opop or numdot) else ""
         out.append((sep if prev is not None else "") + s)
         prev = s
